@@ -4,8 +4,8 @@
 
   Every theorem is ∀-quantified over contents, operands and arguments (no size bound).  `Alg.*` is the code path
   of bitstring/bitarray_.py + bits.py, `Spec.*` the one-line list expression the property talks about.
-  Theorems named `…_partial` carry the negation of a known-deviation region of the pinned tree as hypothesis;
-  the `…_witness` theorem next to each shows ALG ≠ SPEC inside the region (known_findings.d/C03.json).
+  (The deviations of the pinned tree that once made some of these partial were fixed in /repo; see
+  known_findings.d/C03.json, status fixed.)
   Other parts: Props/C03_Range.lean, C03_Replace.lean, C03_Byteswap.lean, C03_Run.lean.
 -/
 import BitstringModel.Model.C03
@@ -183,38 +183,42 @@ theorem delIndex_length {α} (l r : List α) (i : Int) (h : PyL.delIndex l i = .
 
 /-! ### insert -/
 
-/-- `insert`: the code path (`_insert` = `self._bitstore[pos:pos] = bs`, self-operand copied first) computes
-    `l[:p] + bs + l[p:]` and rejects exactly the invalid positions — except that an empty `bs` returns before the
-    position is looked at (known deviation `emptyOperandBadPos`). -/
-theorem insert_eq_spec_partial (l : Bits) (b : Operand) (pos : Int) (h : emptyOperandBadPos l b pos = false) :
+/-- `insert`: the code path (self-operand copied, position validated, empty-operand shortcut, `_insert` =
+    `self._bitstore[pos:pos] = bs`) computes `l[:p] + bs + l[p:]` and rejects exactly the invalid positions —
+    also for an empty `bs`. -/
+theorem insert_eq_spec (l : Bits) (b : Operand) (pos : Int) :
     Alg.insert l b pos = Spec.insert l (b.val l) pos := by
   unfold Alg.insert Spec.insert
   simp only
-  by_cases hb : (b.val l).length = 0
-  · rw [if_pos hb]
-    have hnil : b.val l = [] := List.eq_nil_of_length_eq_zero hb
-    simp only [emptyOperandBadPos, hb, beq_self_eq_true, Bool.true_and] at h
-    cases hp : Spec.insPos l.length pos with
-    | none => rw [hp] at h; simp at h
-    | some p => simp [hnil]
-  · rw [if_neg hb]
-    cases hp : Spec.insPos l.length pos with
-    | none =>
-      have := (insPos_none_iff _ _).mp hp
-      simp only
-      rw [if_pos (by split <;> omega)]
-    | some p =>
-      have := (insPos_some_iff _ _ _).mp hp
-      simp only
-      rw [if_neg (by split <;> omega)]
+  cases hp : Spec.insPos l.length pos with
+  | none =>
+    have := (insPos_none_iff _ _).mp hp
+    simp only
+    rw [if_pos (by split <;> omega)]
+  | some p =>
+    have := (insPos_some_iff _ _ _).mp hp
+    simp only
+    rw [if_neg (by split <;> omega)]
+    by_cases hb : (b.val l).length = 0
+    · rw [if_pos hb]
+      have hnil : b.val l = [] := List.eq_nil_of_length_eq_zero hb
+      simp [hnil]
+    · rw [if_neg hb]
       have e : (if pos < 0 then pos + (l.length : Int) else pos).toNat = p := by split <;> omega
       rw [e]
       unfold Alg._insert
       exact setSlice_contiguous l _ p p (Nat.le_refl _) (by omega)
 
-theorem insert_empty_bad_pos_witness :
-    Alg.insert [true, false] (.lit []) 5 = .ok [true, false] ∧ Spec.insert [true, false] [] 5 = .error .value := by
-  decide
+/-- An invalid position raises even when there is nothing to insert. -/
+theorem insert_empty_bad_pos (l : Bits) (pos : Int) (h : pos < -(l.length : Int) ∨ (l.length : Int) < pos) :
+    Alg.insert l (.lit []) pos = .error .value ∧ Alg.overwrite l (.lit []) pos = .error .value := by
+  constructor
+  · unfold Alg.insert
+    simp only
+    rw [if_pos (by split <;> omega)]
+  · unfold Alg.overwrite
+    simp only
+    rw [if_pos (by split <;> omega)]
 
 theorem insert_ok_iff (l b : Bits) (pos : Int) :
     (∃ r, Spec.insert l b pos = .ok r) ↔ (-(l.length : Int) ≤ pos ∧ pos ≤ (l.length : Int)) := by
@@ -263,30 +267,25 @@ theorem insert_at_start (l b : Bits) : Spec.insert l b 0 = .ok (Spec.prepend l b
 /-! ### overwrite -/
 
 /-- `overwrite`: `_overwrite` = `self._bitstore[pos:pos+len(bs)] = bs` computes `l[:p] + bs + l[p+|bs|:]` (extending
-    when it runs off the end); `a.overwrite(a, p)` works on a copy of `a`.  Known deviation: the empty operand at an
-    invalid position. -/
-theorem overwrite_eq_spec_partial (l : Bits) (b : Operand) (pos : Int)
-    (h1 : emptyOperandBadPos l b pos = false) :
+    when it runs off the end); `a.overwrite(a, p)` works on a copy of `a`; invalid positions are rejected first. -/
+theorem overwrite_eq_spec (l : Bits) (b : Operand) (pos : Int) :
     Alg.overwrite l b pos = Spec.overwrite l (b.val l) pos := by
   unfold Alg.overwrite Spec.overwrite
   simp only
-  by_cases hb : (b.val l).length = 0
-  · rw [if_pos hb]
-    have hnil : b.val l = [] := List.eq_nil_of_length_eq_zero hb
-    simp only [emptyOperandBadPos, hb, beq_self_eq_true, Bool.true_and] at h1
-    cases hp : Spec.insPos l.length pos with
-    | none => rw [hp] at h1; simp at h1
-    | some p => simp [hnil]
-  · rw [if_neg hb]
-    cases hp : Spec.insPos l.length pos with
-    | none =>
-      have := (insPos_none_iff _ _).mp hp
-      simp only
-      rw [if_pos (by split <;> omega)]
-    | some p =>
-      have hpp := (insPos_some_iff _ _ _).mp hp
-      simp only
-      rw [if_neg (by split <;> omega)]
+  cases hp : Spec.insPos l.length pos with
+  | none =>
+    have := (insPos_none_iff _ _).mp hp
+    simp only
+    rw [if_pos (by split <;> omega)]
+  | some p =>
+    have hpp := (insPos_some_iff _ _ _).mp hp
+    simp only
+    rw [if_neg (by split <;> omega)]
+    by_cases hb : (b.val l).length = 0
+    · rw [if_pos hb]
+      have hnil : b.val l = [] := List.eq_nil_of_length_eq_zero hb
+      simp [hnil]
+    · rw [if_neg hb]
       have e : (if pos < 0 then pos + (l.length : Int) else pos).toNat = p := by split <;> omega
       rw [e]
       unfold Alg._overwrite
@@ -306,8 +305,7 @@ theorem overwrite_eq_spec_partial (l : Bits) (b : Operand) (pos : Int)
 /-- Self as operand: `a.overwrite(a, p)` leaves `old[:p] + old`. -/
 theorem overwrite_self (l : Bits) (pos : Int) (p : Nat) (hp : Spec.insPos l.length pos = some p) :
     Alg.overwrite l .self pos = .ok (l.take p ++ l) := by
-  have h1 : emptyOperandBadPos l .self pos = false := by simp [emptyOperandBadPos, hp]
-  rw [overwrite_eq_spec_partial l .self pos h1]
+  rw [overwrite_eq_spec l .self pos]
   unfold Spec.overwrite
   rw [hp]
   simp only [Operand.val]
@@ -495,60 +493,6 @@ theorem intBits_int (k : Nat) (v : Int) (b : Bits) (hv : v < 0) (h : Spec.intBit
       exact intToBits_neg k v hk hv h2
     · cases h
 
-/-- `s[a:b:c] = int`: `_setitem_slice` agrees with the specification except where the pinned tree takes the width of
-    a step −1 slice from the step +1 slice (`setSliceIntNegStep`) and where a `|step| ≥ 2` assignment of 0/1 goes
-    through `set(v, range(…))`'s slice fast path with a stop of −1 (`setSliceIntStepRegion`). -/
-theorem setSliceInt_eq_spec_partial (l : Bits) (a b c : Option Int) (v : Int)
-    (h1 : setSliceIntNegStep l a b c = false) (h2 : setSliceIntStepRegion l a b c = false) :
-    Alg.setSliceInt l a b c v = Spec.setSliceInt l a b c v := by
-  obtain ⟨s, hs, hslen⟩ := getSlice_none_ok l a b
-  by_cases hc : c = none ∨ c = some 1 ∨ c = some (-1)
-  · rw [alg_setSliceInt_unit l a b c v hc,
-      spec_setSliceInt_unit l a b c v (by rcases hc with h | h | h <;> simp [h]), hs]
-    simp only
-    have hlen : s.length = (PyL.slicePositions a b (c.getD 1) l.length).length := by
-      rcases hc with h | h | h
-      · rw [h]; exact hslen
-      · rw [h]; exact hslen
-      · rw [h]
-        simp only [setSliceIntNegStep, h, hs, beq_self_eq_true, Bool.true_and, bne_eq_false_iff_eq] at h1
-        simpa using h1
-    rw [hlen]
-  · cases c with
-    | none => exact absurd (Or.inl rfl) hc
-    | some st =>
-      have hst1 : st ≠ 1 := fun h => hc (Or.inr (Or.inl (by rw [h])))
-      have hstm : st ≠ -1 := fun h => hc (Or.inr (Or.inr (by rw [h])))
-      unfold Alg.setSliceInt
-      rw [if_pos ⟨by simp, by simpa using hstm, by simpa using hst1⟩]
-      by_cases hst0 : st = 0
-      · subst hst0
-        simp [Spec.setSliceInt]
-      · rw [spec_setSliceInt_ext l a b st v hst0 hst1 hstm]
-        by_cases hv : v = 0 ∨ v = 1
-        · rw [if_pos hv, if_pos hv]
-          simp only [Option.getD_some, if_neg hst0, Alg.setRange, PyL.setSliceScalar]
-          congr 2
-          have e0 : (st != 0) = true := by simpa using hst0
-          have e1 : (st != 1) = true := by simpa using hst1
-          have em : (st != -1) = true := by simpa using hstm
-          simp only [setSliceIntStepRegion, setRangeAsSlice, e0, e1, em, Bool.true_and,
-            Bool.not_eq_false', Bool.and_eq_true, beq_iff_eq] at h2
-          rw [h2.2, rangeList_filterMap_normIdx a b st hst0]
-        · rw [if_neg hv, if_neg hv]
-
-theorem setSliceInt_negstep_witness :
-    Alg.setSliceInt (List.replicate 6 false) (some 4) (some 0) (some (-1)) 1 = .error .value ∧
-    Spec.setSliceInt (List.replicate 6 false) (some 4) (some 0) (some (-1)) 1 =
-      .ok [false, true, false, false, false, false] := by
-  decide
-
-theorem setSliceInt_step_witness :
-    Alg.setSliceInt (List.replicate 6 false) none none (some (-2)) 1 = .ok (List.replicate 6 false) ∧
-    Spec.setSliceInt (List.replicate 6 false) none none (some (-2)) 1 =
-      .ok [false, true, false, true, false, true] := by
-  decide
-
 /-- Length of `s[a:b:c] = int`: never changes (the value is made exactly as wide as the slice). -/
 theorem setSliceInt_length (l r : Bits) (a b c : Option Int) (v : Int) (h : Spec.setSliceInt l a b c v = .ok r) :
     r.length = l.length := by
@@ -619,16 +563,16 @@ theorem setSliceInt_frame (l r : Bits) (a b c : Option Int) (v : Int) (h : Spec.
         · cases h
 
 /-! ### non-vacuity -/
-example : emptyOperandBadPos [true, false] (.lit [true]) 7 = false := by decide
+example : Alg.insert [true, false] (.lit [true]) 7 = .error .value ∧ Alg.insert [true, false] (.lit []) 5 = .error .value := by decide
 example : Alg.insert [true, false, true] .self (-1) = .ok [true, false, true, false, true, true] := by decide
-example : emptyOperandBadPos [true, false] (.lit [true, true, true]) 1 = false ∧
-    Alg.overwrite [true, false] (.lit [true, true, true]) 1 = .ok [true, true, true, true] ∧
+example : Alg.overwrite [true, false] (.lit [true, true, true]) 1 = .ok [true, true, true, true] ∧
     Alg.overwrite [true, true, false, true, false, false] .self 2 =
       .ok [true, true, true, true, false, true, false, false] := by decide
 example : PyL.setSlice [1, 2, 3, 4, 5, 6] none none (some (-2)) [7, 8, 9] = .ok [1, 9, 3, 8, 5, 7] := by decide
 example : PyL.delSlice [1, 2, 3, 4, 5, 6] (some (-2)) none (some (-3)) = .ok [1, 3, 4, 6] := by decide
-example : setSliceIntNegStep [true, false, true] none none (some (-1)) = false ∧
-    Alg.setSliceInt [true, false, true] none none (some (-1)) 3 = .ok [true, true, false] := by decide
+example : Alg.setSliceInt [true, false, true] none none (some (-1)) 3 = .ok [true, true, false] ∧
+    Alg.setSliceInt (List.replicate 6 false) (some 4) (some 0) (some (-1)) 1 = .ok [false, true, false, false, false, false] ∧
+    Alg.setSliceInt (List.replicate 6 false) none none (some (-2)) 1 = .ok [false, true, false, true, false, true] := by decide
 example : Spec.intBits 4 (-8) = .ok [true, false, false, false] := by decide
 
 end BM.C03
